@@ -853,6 +853,90 @@ func runC10(w *World, r *Report) {
 		r.Check(!skip, "C10.tool-runinfo", n+": the run info is switched on every path", f.Pos(), "no path to the return avoids ReuseHandlers", "the switch to the tool call's own run info is conditional ("+wit+"): a tool that fires its own callbacks (IsCallbacksEnabled) then reports under the enclosing ToolsNode's run info — every handler sees the ToolsNode unit start and end twice with mixed payloads and the tool-call unit is never reported")
 	}
 
+	r.Rule("C10.flow-inner-units-own-run-info", "a flow component that runs the component it wraps (the retriever / indexer flows calling Retrieve, Transform, Store of a components/* interface) does so under a context that went through a run-info switch (callbacks.ReuseHandlers, or a helper that calls it) on every path: handed the node's own context, a wrapped component that fires its own callbacks reports under the NODE's run info — the node unit starts and ends twice with mixed payloads and the wrapped unit is never reported", 3)
+	{
+		switches := map[*ssa.Function]bool{}
+		for _, f := range []*ssa.Function{w.Fn("callbacks", "ReuseHandlers"), w.Fn("internal/callbacks", "ReuseHandlers")} {
+			switches[f] = true
+		}
+		for _, f := range w.RepoFuncs("flow") {
+			for _, c := range callsTo(f, w.Fn("callbacks", "ReuseHandlers"), w.Fn("internal/callbacks", "ReuseHandlers")) {
+				_ = c
+				switches[f] = true
+			}
+		}
+		n := 0
+		for _, fn := range w.RepoFuncs("flow/retriever", "flow/indexer") {
+			k := 0
+			instrs(fn, func(in ssa.Instruction) {
+				c, ok := in.(*ssa.Call)
+				if !ok || !c.Call.IsInvoke() || len(c.Call.Args) == 0 {
+					return
+				}
+				m := c.Call.Method
+				if m.Pkg() == nil || !strings.HasPrefix(m.Pkg().Path(), modPath+"/components/") {
+					return
+				}
+				if nt := namedOf(c.Call.Args[0].Type()); nt == nil || nt.Obj().Name() != "Context" {
+					return
+				}
+				k++
+				n++
+				skip, wit := pathQuery{fn: fn, goal: func(x ssa.Instruction) bool { return x == ssa.Instruction(c) }, avoid: func(x ssa.Instruction) bool {
+					ci, isC := x.(ssa.CallInstruction)
+					if !isC {
+						return false
+					}
+					sc := staticCallee(ci)
+					return sc != nil && switches[origin(sc)]
+				}}.exists()
+				// … and the context handed over is one that came out of a switch (not the switch made for another component of
+				// the same flow, with the node's context handed to this one)
+				fromSwitch := false
+				seenV := map[ssa.Value]bool{}
+				var visit func(v ssa.Value, d int)
+				visit = func(v ssa.Value, d int) {
+					if v == nil || d > 10 || seenV[v] || fromSwitch {
+						return
+					}
+					seenV[v] = true
+					switch x := v.(type) {
+					case *ssa.Call:
+						if sc := staticCallee(x); sc != nil && switches[origin(sc)] {
+							fromSwitch = true
+							return
+						}
+						for _, a := range x.Call.Args {
+							if nt := namedOf(a.Type()); nt != nil && nt.Obj().Name() == "Context" {
+								visit(a, d+1)
+							}
+						}
+					case *ssa.Phi:
+						for _, e := range x.Edges {
+							visit(e, d+1)
+						}
+					case *ssa.UnOp:
+						if a, isA := x.X.(*ssa.Alloc); isA && x.Op == token.MUL {
+							for _, st := range storesToCell(fn, a) {
+								visit(st.Val, d+1)
+							}
+						}
+					case *ssa.Extract:
+						visit(x.Tuple, d+1)
+					}
+				}
+				visit(c.Call.Args[0], 0)
+				if !skip && !fromSwitch {
+					skip, wit = true, "the context argument does not come out of a run-info switch"
+				}
+				r.Check(!skip, "C10.flow-inner-units-own-run-info", fmt.Sprintf("%s: inner %s call #%d", w.fname(fn), m.Name(), k), c.Pos(), "behind a run-info switch on every path", "the wrapped component is called with the context the flow component was given ("+wit+"): as a graph node that context carries the node's run info, so a wrapped retriever / transformer / indexer that fires its own callbacks makes every handler see the parent node start and end 2 (indexer: 3) times with the payloads of different units, and the wrapped units are never reported as units of their own — the multi-query and router flows and the ToolsNode switch to the inner component's run info first")
+			})
+		}
+		if n < 3 {
+			undecidedf("C10.flow-inner-units-own-run-info: only %d inner component calls found in the retriever / indexer flows", n)
+		}
+	}
+
 	r.Rule("C10.timing-checker-optional", "TimingChecker is an optional interface: wherever a handler is asked through it, a handler that does not implement it is treated like one that answered 'needed' — the not-ok edge of the assertion and the true edge of Needed lead to the same place (the dispatch point of internal/callbacks and the handler helper of utils/callbacks must agree, or a plain callbacks.Handler behind the helper is never called)", 2)
 	{
 		n := 0
